@@ -151,7 +151,7 @@ fn edge_i64() -> BoxedStrategy<i64> {
     .boxed()
 }
 
-fn range_strategy() -> impl Strategy<Value = RangeCase> {
+pub fn range_strategy() -> impl Strategy<Value = RangeCase> {
     let step = prop_oneof![
         4 => prop::sample::select(vec![1i64, -1, 2, -2, 3, 5, -5, 7, 0, i64::MAX, i64::MIN, i64::MIN + 1, i64::MAX - 1, 1i64 << 62, -(1i64 << 62)]),
         2 => -20i64..20,
@@ -702,7 +702,7 @@ pub fn terms_oracle(c: &TermsCase) -> Verdict {
     Verdict::Pass(info.class(names[kind as usize]))
 }
 
-fn terms_strategy() -> impl Strategy<Value = TermsCase> {
+pub fn terms_strategy() -> impl Strategy<Value = TermsCase> {
     let cfg = GenCfg { depth: 3, size: 10, heavy: false, ..GenCfg::std() };
     let strs = prop_oneof![
         3 => "[a-z_]{1,8}".prop_map(|s| s),
@@ -736,10 +736,18 @@ pub fn run(run: &mut Run) {
     run.prop("ranges", range_strategy, run.tier.pick(60_000, 3_000_000), range_oracle);
     run.prop("date-time", dt_strategy, run.tier.pick(60_000, 3_000_000), dt_oracle);
     run.prop("sets-exceptions-builders-proplists", terms_strategy, run.tier.pick(30_000, 1_500_000), terms_oracle);
+    if run.tier == crate::engine::Tier::Thorough {
+        // coverage-guided byte fuzzing of the same oracle (libFuzzer, structure-aware through fuzzde); see fuzzbridge.rs
+        crate::fuzzbridge::campaign(run, "c20range", 3_000_000, 400);
+    }
+    if run.tier == crate::engine::Tier::Thorough {
+        // coverage-guided byte fuzzing of the same oracle (libFuzzer, structure-aware through fuzzde); see fuzzbridge.rs
+        crate::fuzzbridge::campaign(run, "c20terms", 3_000_000, 400);
+    }
 }
 
 pub fn replays() -> Vec<ReplayEntry> {
-    vec![
+    vec![replay_entry("fuzz:c20range", crate::fuzzbridge::eval_input), replay_entry("fuzz:c20terms", crate::fuzzbridge::eval_input), 
         replay_entry("ranges", range_oracle),
         replay_entry("date-time", dt_oracle),
         replay_entry("sets-exceptions-builders-proplists", terms_oracle),
